@@ -3,6 +3,7 @@ package main
 
 import (
 	"sort"
+	"verif/lib/enum"
 
 	"fmt"
 	"time"
@@ -27,6 +28,7 @@ func main() {
 		{"struct-reversed-dups", avlh.Params{U: 3, N: ev.Pick(r, 7, 9), Clone: true}, true},
 		{"int-distinct", avlh.Params{U: ev.Pick(r, 8, 11), N: ev.Pick(r, 8, 11), Distinct: true, Clone: true}, false},
 	}
+	avlh.Ledger = &enum.E{R: r}
 	states, trans, depth := 0, 0, 0
 	var parts []string
 	for _, c := range cfgs {
@@ -99,6 +101,8 @@ func main() {
 	r.Set("max_depth", depth)
 	r.Set("configs", parts)
 	r.Set("rule", "explicit-state BFS to fixpoint over the real avl.Tree; state = fingerprint of the complete concrete tree; alphabet Add(v), Remove(v) incl. absent values below/inside/above the universe, Clear, Clone (search continues on the clone); after every transition every public observer is compared with a sorted-multiset model PLUS deterministic families beyond the exhaustive bound (large sizes, every single/double removal from trees built in 7 orders, long one-instance churn histories): see the *_family_* counters")
+	avlh.Ledger.Flush()
+	r.Set("results_kept_and_re_examined_after_later_calls", avlh.Ledger.KeptN)
 	r.Assume("comparators are total orders consistent with == (the struct configuration and the second pass of every family use comparators whose results are multiples of the difference, not -1/0/+1); universe and size bound as listed in configs")
 	r.Finish()
 }
